@@ -424,7 +424,8 @@ def execute(trace: Dict[str, Any]) -> Dict[str, Any]:
                 stats["fault_eval_error"] = stats.get("fault_eval_error", 0) + 1
             gf = [g.get("fp"), bool(g.get("skipped")), "aborted" in g]
             wf = [w.get("fp"), bool(w.get("skipped")), "aborted" in w]
-            if gf != wf and not res["livelock"]:
+            if gf != wf and not res["livelock"] and not (
+                    gf[1:] == wf[1:] and kit.same_outcome(gf[0], wf[0])):
                 violations.append({
                     "oracle": "alone-mismatch", "thread": tid, "op_index": i, "op": op["op"],
                     "runner": runner_of[tid], "interleaved": g.get("fp") or g, "alone": w.get("fp") or w,
